@@ -35,6 +35,7 @@ type svcFaultResult struct {
 	NextOK    bool   `json:"next_run_prunes"`
 	Skip      string `json:"skip,omitempty"`
 	Blocked   string `json:"writer_blocked,omitempty"`
+	Stalled   string `json:"stalled,omitempty"`
 }
 
 func svcFaultOnce(k int) (*svcFaultResult, error) {
@@ -109,6 +110,7 @@ func svcFaultOnce(k int) (*svcFaultResult, error) {
 	var mu sync.Mutex
 	phase, n := 0, 0
 	atGate, gate, over := make(chan struct{}), make(chan struct{}), make(chan struct{})
+	late := make(chan struct{}, 1)
 	SetDBHook(e.DSN, func(_ context.Context, kind CallKind, q string, after bool) error {
 		mu.Lock()
 		ph := phase
@@ -128,6 +130,14 @@ func svcFaultOnce(k int) (*svcFaultResult, error) {
 				close(atGate)
 				<-gate
 				return svcFaultAt(&mu, &phase, &n, k, r, kind, over)
+			}
+		case 5:
+			// (watching for a late second run; the harness issues no statement in this phase)
+			if !after && kind == KBegin {
+				select {
+				case late <- struct{}{}:
+				default:
+				}
 			}
 		case 3:
 			if !after && kind != KRollback {
@@ -168,12 +178,42 @@ func svcFaultOnce(k int) (*svcFaultResult, error) {
 	select {
 	case <-atGate:
 	case <-time.After(5 * time.Second):
-		// run 1 pruned nothing or a full batch: the service went to its one-minute interval
+		// run 1 pruned nothing or a full batch: the service went to its one-minute interval.
+		// After a PARTIAL batch the pace is the unchanged 100 ms tick; a service that does not run
+		// again even within its full interval (60 s + up to 10 s fuzz) never will: everything that
+		// dies later stays behind. (The long wait is only paid when the anomaly shows.)
+		partial := 0
+		mu.Lock()
+		phase = 4 // (the harness's own statements pass)
+		mu.Unlock()
+		if mid, err := e.Dump(ctx); err == nil {
+			partial = len(pre.Topics) - len(mid.Topics)
+		}
+		if partial > 0 && partial < 100 && k == 1 {
+			mu.Lock()
+			phase = 5
+			mu.Unlock()
+			select {
+			case <-late:
+				// it does run again, only at another pace: not stuck
+				mu.Lock()
+				phase = 4
+				mu.Unlock()
+				stop()
+				r.Skip = "after a partial batch the service ran again only at its long interval"
+				return r, nil
+			case <-time.After(75 * time.Second):
+			}
+			r.Run1Rows = partial
+			r.Stalled = fmt.Sprintf("run 1 pruned %d topic(s) (a partial batch: fewer than MaxDelete = 100); the service did not run again within 80 s (interval 60 s + at most 10 s fuzz): it is stuck", partial)
+		}
 		mu.Lock()
 		phase = 4
 		mu.Unlock()
 		stop()
-		r.Skip = "the service did not start a second run within 5 s"
+		if r.Skip == "" {
+			r.Skip = "the service did not start a second run within 5 s"
+		}
 		return r, nil
 	}
 	mid, err := e.Dump(ctx)
